@@ -235,7 +235,17 @@ var listCache = map[string][]string{}
 
 func cliFiles() map[string][]string {
 	return map[string][]string{"three.txt": {"alpha", "bravo", "charlie"}, "dups.txt": {"alpha", "bravo", "alpha", "charlie", "bravo"},
-		"twin.txt": {"polish", "Polish", "alpha"}, "empty.txt": {}, "one.txt": {"solo"}, "onedup.txt": {"solo", "solo", "solo"}}
+		"twin.txt": {"polish", "Polish", "alpha"}, "empty.txt": {}, "one.txt": {"solo"}, "onedup.txt": {"solo", "solo", "solo"},
+		"percent.txt": {"a%sb", "q%%r", "100%", "%d"}, "longline.txt": longLineWords()}
+}
+
+// longLineWords: 12000 distinct words; the file puts them all on ONE line (> 64 KiB)
+func longLineWords() []string {
+	out := make([]string, 12000)
+	for i := range out {
+		out[i] = fmt.Sprintf("w%05dx", i)
+	}
+	return out
 }
 
 // couldGenerate reports whether s can be split into n atoms (words of kept or
@@ -410,11 +420,11 @@ func c17Run(c *core.Ctx) {
 	if os.Getenv("VERIF_OPGEN") == "" || dir == "" {
 		panic("C17 shard without VERIF_OPGEN")
 	}
-	classVals := []string{"", "uppercase", "lowercase", "digits", "symbols", "ambiguous", "uppercase,lowercase", "digits, symbols", "digits,ambiguous", "uppercase,lowercase,digits,symbols,ambiguous", "lowercase, uppercase, digits", " symbols , digits "}
+	classVals := []string{"", "uppercase", "lowercase", "digits", "symbols", "ambiguous", "uppercase,lowercase", "digits, symbols", "digits,ambiguous", "uppercase,lowercase,digits,symbols,ambiguous", "lowercase, uppercase, digits", " symbols , digits ", "digits,digits", "digits,lowercase,digits", "symbols,symbols,uppercase"}
 	lengths := []string{"", "0", "1", "3", "20"}
 	npol := 3
 	if !c.Thorough() {
-		classVals = []string{"", "digits", "digits, symbols", "uppercase,lowercase", "ambiguous", "lowercase, uppercase, digits"}
+		classVals = []string{"", "digits", "digits, symbols", "uppercase,lowercase", "ambiguous", "lowercase, uppercase, digits", "digits,digits", "digits,lowercase,digits"}
 		npol = 2
 	}
 	for _, L := range lengths {
@@ -436,12 +446,12 @@ func c17Run(c *core.Ctx) {
 			return
 		}
 	}
-	lists := []wordsCase{{List: ""}, {List: "words"}, {List: "syllables"}, {List: "nope"}, {File: "three.txt"}, {File: "dups.txt"}, {File: "twin.txt"}, {File: "empty.txt"}, {File: "one.txt"}, {File: "onedup.txt"}}
+	lists := []wordsCase{{List: ""}, {List: "words"}, {List: "syllables"}, {List: "nope"}, {File: "three.txt"}, {File: "dups.txt"}, {File: "twin.txt"}, {File: "empty.txt"}, {File: "one.txt"}, {File: "onedup.txt"}, {File: "percent.txt"}, {File: "longline.txt"}}
 	sizes := []string{"", "0", "1", "3"}
 	seps := []string{"", "hyphen", "space", "comma", "period", "underscore", "digit", "none"}
 	caps := []string{"", "none", "first", "all", "random", "one"}
 	if !c.Thorough() {
-		lists = []wordsCase{{List: ""}, {List: "syllables"}, {List: "nope"}, {File: "three.txt"}, {File: "dups.txt"}, {File: "twin.txt"}, {File: "empty.txt"}, {File: "one.txt"}, {File: "onedup.txt"}}
+		lists = []wordsCase{{List: ""}, {List: "syllables"}, {List: "nope"}, {File: "three.txt"}, {File: "dups.txt"}, {File: "twin.txt"}, {File: "empty.txt"}, {File: "one.txt"}, {File: "onedup.txt"}, {File: "percent.txt"}, {File: "longline.txt"}}
 		sizes = []string{"", "0", "3"}
 		seps = []string{"", "space", "digit", "none"}
 		caps = []string{"", "first", "random", "one"}
@@ -488,7 +498,11 @@ func c17Prepare(tier string) ([]string, func(), error) {
 		return nil, nil, err
 	}
 	for name, words := range cliFiles() {
-		if err := os.WriteFile(filepath.Join(dir, name), []byte(strings.Join(words, "\n")+"\n"), 0o644); err != nil {
+		sep := "\n"
+		if name == "longline.txt" {
+			sep = " "
+		}
+		if err := os.WriteFile(filepath.Join(dir, name), []byte(strings.Join(words, sep)+"\n"), 0o644); err != nil {
 			return nil, nil, err
 		}
 	}
